@@ -128,6 +128,14 @@ def constructs(fn: ast.FunctionDef):
                 out.append((n, 'torch.tensor', ast.unparse(n)))
             elif isinstance(f, ast.Name) and f.id in ('float', 'int') and n.args and not isinstance(n.args[0], ast.Constant):
                 out.append((n, f.id + '()', ast.unparse(n)))
+            elif nm in ('round', 'floor', 'ceil', 'trunc', 'sign', 'heaviside', 'frac_') and isinstance(f, ast.Attribute) and not (isinstance(f.value, ast.Name) and f.value.id in ('math', 'np', 'numpy')):
+                out.append((n, 'zero-derivative', ast.unparse(n)))
+            elif nm in ('register_hook', 'register_full_backward_hook', 'register_backward_hook'):
+                out.append((n, 'gradient-hook', ast.unparse(n)))
+            elif nm == 'requires_grad_' and n.args and isinstance(n.args[0], ast.Constant) and n.args[0].value is False:
+                out.append((n, 'requires_grad_(False)', ast.unparse(n)))
+            elif nm == 'set_grad_enabled' and n.args and isinstance(n.args[0], ast.Constant) and n.args[0].value is False:
+                out.append((n, 'no_grad', ast.unparse(n)))
         elif isinstance(n, ast.Attribute) and n.attr == 'data' and isinstance(n.ctx, ast.Load) and not (isinstance(n.value, ast.Name) and n.value.id == 'self'):
             out.append((n, '.data', ast.unparse(n)))
         elif isinstance(n, ast.With) and any('no_grad' in ast.unparse(i.context_expr) for i in n.items):
@@ -268,6 +276,33 @@ def check_where_traps(ctx, rep, scope_fns):
     rep.analysed['where_calls'] = n
 
 
+def check_leaf_rebinding(ctx, rep):
+    """C12.S — assigning a new value to a Parameter installs a *new* leaf tensor (`self._tensor = tensor`) on every path.  HMC and the optimiser loops read `parameter.grad`
+    after each backward() without zeroing it, relying on every assignment to start from a leaf without a `.grad`; copying the value into the existing leaf keeps the old
+    `.grad`, so the next backward() accumulates and the gradient read is the sum over the evaluations so far."""
+    from sa.cfg import CFG
+    cls = ctx.classes.get('torchtree.core.parameter.Parameter')
+    r = cls.resolve('tensor', 'setter')
+    if not r:
+        raise AnalysisError('Parameter.tensor setter not found')
+    fn = r[1]
+    arg = fn.args.args[1].arg
+    cfg = CFG(fn)
+    rebinds = [n for n in cfg.stmt_nodes() if isinstance(n.stmt, ast.Assign) and any(self_attr(t) == '_tensor' for t in n.stmt.targets)
+               and isinstance(n.stmt.value, ast.Name) and n.stmt.value.id == arg]
+    clears = [n for n in cfg.stmt_nodes() if isinstance(n.stmt, ast.Assign) and any(isinstance(t, ast.Attribute) and t.attr == 'grad' for t in n.stmt.targets)
+              and isinstance(n.stmt.value, ast.Constant) and n.stmt.value.value is None]
+    inplace = [n.stmt for n in cfg.stmt_nodes() if n.stmt is not None and any(isinstance(c, ast.Call) and isinstance(c.func, ast.Attribute) and c.func.attr in ('copy_', 'set_', 'fill_')
+                                                                             and self_attr(c.func.value) == '_tensor' for c in ast.walk(n.stmt))
+               and not isinstance(n.stmt, (ast.If, ast.With, ast.For, ast.While, ast.Try))]
+    ok = bool(rebinds) and cfg.must_pass(cfg.entry, cfg.exit, rebinds + clears)
+    rep.check('C12.S', 'Parameter.tensor.setter::installs-a-new-leaf-on-every-path', ok, where(cls.module, fn),
+              {'rebinding_statements': len(rebinds), 'in_place_copies': [norm_text(s_)[:60] for s_ in inplace]},
+              f"Parameter.tensor setter has a path that does not rebind self._tensor to the assigned tensor ({[norm_text(s_)[:50] for s_ in inplace] or 'no store'}): the existing leaf keeps "
+              f"its .grad, and the gradient read after the next backward() is the sum over all evaluations since (the leapfrog integrator and the optimiser retry loop read "
+              f"parameter.grad without zeroing it)")
+
+
 def run(ctx, rep):
     rep.explanation = (
         "Every method on a differentiable path (all methods of the model, distribution, transform and parameter classes outside construction / "
@@ -278,6 +313,7 @@ def run(ctx, rep):
         "carries the derivative with respect to a parameter it depends on."
     )
     rep.rule('C12.N', "no torch.where whose selected branch divides by (or takes the log of) the very quantity the guard tests for zero")
+    rep.rule('C12.S', "assigning to a Parameter installs a new leaf tensor on every path of the setter (no stale .grad is carried into the next backward())")
     rep.rule('C12.G', "requires_grad setters notify listeners (caches evaluated before the switch hold graph-less tensors)")
     rep.rule('C12.D', "no graph-cutting construct on a differentiable path (shape-derived / literal / index-only / allow-listed uses excepted)")
     rep.assumptions += ["Tensor.detach/item/tolist/numpy/.data, torch.no_grad, torch.tensor(t), float(t)/int(t) and autograd.functional.jacobian/hessian "
@@ -328,6 +364,20 @@ def run(ctx, rep):
                 if shape_derived(node.args[0], defs):
                     rep.ok('C12.D', key, W, {'class': 'shape-derived'})
                     continue
+            if kind == 'zero-derivative':
+                operand = node.args[0] if (isinstance(node.func.value, ast.Name) and node.func.value.id == 'torch' and node.args) else node.func.value
+                if shape_derived(operand, defs) or literal_only(operand) or index_only(node, fn):
+                    rep.ok('C12.D', key, W, {'class': 'shape-derived / literal / index or comparison only'})
+                    continue
+                rep.bad('C12.D', key, W, {'construct': text[:100], 'kind': kind},
+                        f"{qual}: `{text[:70]}` is piecewise constant: its derivative is zero, so everything the rounded value depends on stops receiving a gradient through it "
+                        f"while the returned value still changes with those parameters")
+                continue
+            if kind == 'gradient-hook':
+                rep.bad('C12.D', key, W, {'construct': text[:100], 'kind': kind},
+                        f"{qual}: `{text[:70]}` installs a hook that rewrites the gradient flowing through a value of the density: what back-propagation returns is no longer "
+                        f"the derivative of the reported value (wherever the hook changes anything)")
+                continue
             if kind in ('.item', '.tolist', '.numpy', 'int()', 'float()') and index_only(node, fn):
                 rep.ok('C12.D', key, W, {'class': 'index / comparison only'})
                 continue
@@ -343,6 +393,7 @@ def run(ctx, rep):
     check_where_traps(ctx, rep, [(qual, m, fn) for m, qual, fn in targets])
     check_math_on_tensors(ctx, rep, [(m, qual, fn, owner.get(id(fn))) for m, qual, fn in targets])
     check_requires_grad_setters(ctx, rep)
+    check_leaf_rebinding(ctx, rep)
     rep.analysed['functions_scanned'] = n_fn
     rep.analysed['constructs_classified'] = n_c
     if n_fn < 250 or n_c < 20:
